@@ -7,6 +7,7 @@
 From Coq Require Import Reals List ZArith Bool.
 Import ListNotations.
 Require Import MD.Cell.Model MD.Cell.Proofs MD.Cell.ZAlgebra MD.Cell.Formats MD.Cell.FormatsProofs.
+Require Import MD.Cell.Frames MD.Cell.DegProofs MD.Cell.InverseProofs MD.Cell.SnapProofs MD.Cell.FrameProofs.
 Require Import MD.Traj.Model MD.Traj.Proofs MD.Traj.CellHist.
 Open Scope R_scope.
 
@@ -163,6 +164,15 @@ Theorem join_refuses_mixed_cells : forall v w r others ct dis w' t os,
 Proof. exact join_operands_agree. Qed.
 Print Assumptions join_refuses_mixed_cells.
 
+(* ---- per-frame completeness: after ANY history of the operation alphabet (slice, join, md.join, stack, atom_slice, remove_solvent,
+        the setters, ...; xyz assignments that keep the number of frames, the one assignment mdtraj does not check) every
+        trajectory's stored lengths and angles have exactly one row per frame *)
+Theorem cell_has_one_row_per_frame_after_any_history : forall v sps ops,
+  guarded xyz_guard v (init_world sps) ops = true ->
+  Forall cell_rows_per_frame (trajs (fst (run v (init_world sps) ops))).
+Proof. exact per_frame_cell_after_any_history. Qed.
+Print Assumptions cell_has_one_row_per_frame_after_any_history.
+
 (* ---- the getters are observers: in the model no derived cell quantity is stored, so whatever is read between two
         assignments, the next read is computed from the stored lengths and angles of that moment (the runs interleave reads of
         vectors / volumes / lengths / angles / periodic distances with single-field assignments and compare after every step) *)
@@ -216,6 +226,209 @@ Theorem zero_box_formats_use_the_vectors_setter : forall v w r t m zero w',
   exists t', nth_error (trajs w') r = Some t' /\ have_cell t' = negb zero /\ complete_or_none t' = true.
 Proof. exact load_through_vectors_setter. Qed.
 Print Assumptions zero_box_formats_use_the_vectors_setter.
+
+(* ======================================================================================================================
+   Second layer (MD.Cell.Frames): the angles themselves in degrees (Coq's cos, sin, acos), every valid cell, both
+   directions, the tilt factors, the snap, and the per-frame glue of the Trajectory getters and setters.
+   valid_cell (la, lb, lc) (alpha, beta, gamma): positive lengths, 0 < angle < 180, positive Gram determinant.
+   ====================================================================================================================== *)
+
+(* ---- the positivity condition on the cosines IS the triangle condition on the angles *)
+Theorem gram_is_a_product_of_four_sines : forall A B C,
+  gram (cos A) (cos B) (cos C) =
+  4 * (sin ((A + B + C) / 2) * sin ((B + C - A) / 2)) * (sin ((C + A - B) / 2) * sin ((A + B - C) / 2)).
+Proof. exact gram_factorisation. Qed.
+Print Assumptions gram_is_a_product_of_four_sines.
+
+Theorem positivity_condition_is_triangle_condition : forall alpha beta gamma,
+  angle_ok alpha -> angle_ok beta -> angle_ok gamma ->
+  (0 < gram_deg alpha beta gamma <-> triangle_condition alpha beta gamma).
+Proof. exact gram_pos_iff_triangle. Qed.
+Print Assumptions positivity_condition_is_triangle_condition.
+
+(* ---- for EVERY valid cell, in degrees: stored lengths and angles, standard orientation, volume, round trip *)
+Theorem valid_cell_vectors_have_lengths_and_angles : forall la lb lc alpha beta gamma,
+  valid_cell (la, lb, lc) (alpha, beta, gamma) ->
+  let '(va, vb, vc) := to_vectors_deg la lb lc alpha beta gamma in
+  dot va va = la * la /\ dot vb vb = lb * lb /\ dot vc vc = lc * lc /\
+  dot vb vc = lb * lc * cos (deg2rad alpha) /\ dot vc va = lc * la * cos (deg2rad beta) /\
+  dot va vb = la * lb * cos (deg2rad gamma).
+Proof. exact deg_vectors_gram. Qed.
+Print Assumptions valid_cell_vectors_have_lengths_and_angles.
+
+Theorem valid_cell_standard_orientation_and_volume : forall la lb lc alpha beta gamma,
+  valid_cell (la, lb, lc) (alpha, beta, gamma) ->
+  let '(va, vb, vc) := to_vectors_deg la lb lc alpha beta gamma in
+  (va = (la, 0, 0) /\ snd vb = 0 /\ 0 < snd (fst vb) /\ 0 < snd vc /\ 0 < det3 va vb vc) /\
+  det3 va vb vc = la * lb * lc * sqrt (gram_deg alpha beta gamma).
+Proof. exact deg_orientation_volume. Qed.
+Print Assumptions valid_cell_standard_orientation_and_volume.
+
+
+Theorem valid_cell_roundtrip_in_degrees : forall la lb lc alpha beta gamma,
+  valid_cell (la, lb, lc) (alpha, beta, gamma) ->
+  let '(va, vb, vc) := to_vectors_deg la lb lc alpha beta gamma in
+  from_vectors_deg va vb vc = ((la, lb, lc), (alpha, beta, gamma)).
+Proof. exact deg_roundtrip. Qed.
+Print Assumptions valid_cell_roundtrip_in_degrees.
+
+Theorem reported_angles_lie_in_0_180 : forall c, 0 <= rad2deg (acos c) <= 180.
+Proof. exact reported_angle_range. Qed.
+Print Assumptions reported_angles_lie_in_0_180.
+
+(* ---- the other direction: ANY three independent vectors (any orientation, either handedness) assigned to one frame give
+        a valid stored cell whose reported vectors have the same six dot products, volume |det|, and lie in the standard
+        orientation; a description already in the standard orientation is returned unchanged *)
+Theorem square_of_volume_is_gram_determinant : forall a b c,
+  det3 a b c * det3 a b c =
+  dot a a * dot b b * dot c c - dot a a * (dot b c * dot b c) - dot b b * (dot c a * dot c a) - dot c c * (dot a b * dot a b)
+  + 2 * (dot a b * dot b c * dot c a).
+Proof. exact gram_det. Qed.
+Print Assumptions square_of_volume_is_gram_determinant.
+
+Theorem any_independent_description_same_cell : forall m,
+  volume_frame m <> 0 ->
+  let '(l, a) := setter_frame m in
+  valid_cell l a /\ same_gram (getter_frame_exact l a) m /\
+  volume_frame (getter_frame_exact l a) = Rabs (volume_frame m) /\ std_oriented (getter_frame_exact l a).
+Proof. exact frame_inverse. Qed.
+Print Assumptions any_independent_description_same_cell.
+
+Theorem standard_description_is_returned_unchanged :
+  (forall a b c, std_oriented (a, b, c) ->
+     let '((x, y, z), (al, be, ga)) := from_vectors_deg a b c in to_vectors_deg x y z al be ga = (a, b, c)) /\
+  (* two standard-orientation descriptions with the same six dot products are equal *)
+  (forall m n, std_oriented m -> std_oriented n -> same_gram m n -> m = n).
+Proof. exact (conj std_roundtrip std_unique). Qed.
+Print Assumptions standard_description_is_returned_unchanged.
+
+
+(* ---- tilt factors (lx, ly, lz, xy, xz, yz) are the components (a_x, b_y, c_z, b_x, c_x, c_y) of the box vectors *)
+Theorem tilt_factors_are_vector_components : forall la lb lc alpha beta gamma,
+  0 < lb -> angle_ok gamma ->
+  let '((ax, _, _), (bx, by_, _), (cx, cy, cz)) := to_vectors_deg la lb lc alpha beta gamma in
+  tilt_factors_deg la lb lc alpha beta gamma = (ax, by_, cz, bx, cx, cy).
+Proof. exact tilt_matches_vectors_deg. Qed.
+Print Assumptions tilt_factors_are_vector_components.
+
+(* ---- the 1e-6 snap: every dot product moves by at most 1e-6 (|u|_1 + |v|_1); with diagonal entries of at least 1e-6 the
+        reported (snapped) frame is still in the standard orientation and its volume is exactly la lb lc sqrt(gram) *)
+Theorem snap_moves_dot_products_by_at_most : forall u v,
+  Rabs (dot (snap_vec u) (snap_vec v) - dot u v) <= gen_snap_tol * (norm1 u + norm1 v).
+Proof. exact snap_dot_bound. Qed.
+Print Assumptions snap_moves_dot_products_by_at_most.
+
+Theorem reported_frame_volume_and_orientation : forall la lb lc alpha beta gamma,
+  valid_cell (la, lb, lc) (alpha, beta, gamma) ->
+  (let '((a1, _, _), (_, b2, _), (_, _, c3)) := getter_frame_exact (la, lb, lc) (alpha, beta, gamma) in
+   gen_snap_tol <= a1 /\ gen_snap_tol <= b2 /\ gen_snap_tol <= c3) ->
+  volume_frame (getter_frame (la, lb, lc) (alpha, beta, gamma)) = la * lb * lc * sqrt (gram_deg alpha beta gamma) /\
+  std_oriented (getter_frame (la, lb, lc) (alpha, beta, gamma)).
+Proof. exact frame_volume. Qed.
+Print Assumptions reported_frame_volume_and_orientation.
+
+(* ---- the Trajectory glue (regenerated from trajectory.py): columns and rows reach the arguments of the same name *)
+Theorem trajectory_glue_keeps_names :
+  (forall la lb lc alpha beta gamma,
+     getter_frame_exact (la, lb, lc) (alpha, beta, gamma) = to_vectors_deg la lb lc alpha beta gamma) /\
+  (forall a b c, setter_frame (a, b, c) = from_vectors_deg a b c).
+Proof. exact (conj glue_getter glue_setter). Qed.
+Print Assumptions trajectory_glue_keeps_names.
+
+(* one frame: whatever orthogonal re-description (rotation or mirror image) of a valid cell is assigned, exactly the
+   stored lengths and angles come back *)
+Theorem frame_roundtrip_through_any_redescription : forall r l a,
+  orthogonal r -> valid_cell l a -> setter_frame (rotate r (getter_frame_exact l a)) = (l, a).
+Proof. exact frame_rotated_roundtrip. Qed.
+Print Assumptions frame_roundtrip_through_any_redescription.
+
+(* all frames, each with its own re-description: the unitcell_vectors setter stores exactly the described cells
+   (hypothesis on the first length: the description must not be mistaken for the all-zero "no cell" matrix) *)
+Theorem assigning_described_cells_stores_them : forall s rs cells out,
+  length rs = length cells -> length cells = n_frames s -> Forall orthogonal rs ->
+  Forall (fun c => valid_cell (fst c) (snd c)) cells ->
+  (exists l a cells', cells = (l, a) :: cells' /\ 3 * (gen_zero_tol * gen_zero_tol) <= (fst (fst l)) * (fst (fst l))) ->
+  set_vectors s (Some (describe rs cells)) out ->
+  out = Val (mkCell (n_frames s) (Some (map fst cells)) (Some (map snd cells))).
+Proof. exact set_described_vectors. Qed.
+Print Assumptions assigning_described_cells_stores_them.
+
+Theorem vectors_setter_complete_or_empty_per_frame : forall s arg s',
+  set_vectors s arg (Val s') ->
+  n_frames s' = n_frames s /\ per_frame s' /\ (lengths s' = None <-> angles s' = None).
+Proof. exact set_vectors_complete. Qed.
+Print Assumptions vectors_setter_complete_or_empty_per_frame.
+
+Theorem only_none_or_all_zero_vectors_remove_the_cell :
+  (forall s out, set_vectors s None out -> out = Val (mkCell (n_frames s) None None)) /\
+  (forall s ms s', set_vectors s (Some ms) (Val s') -> (lengths s' = None /\ angles s' = None <-> all_tiny ms)) /\
+  (forall m, (let '(a, _, _) := m in 3 * (gen_zero_tol * gen_zero_tol) <= dot a a) -> ~ tiny_mat m) /\
+  gen_zero_tol <= / 1000000000000.
+Proof. exact (conj set_vectors_none (conj set_vectors_removes_iff (conj not_tiny_of_norm zero_tol_small))). Qed.
+Print Assumptions only_none_or_all_zero_vectors_remove_the_cell.
+
+(* ---- unitcell_vectors / unitcell_volumes over all frames *)
+Theorem vectors_reported_iff_complete_cell_one_matrix_per_frame :
+  (forall s, (exists ms, get_vectors s = Some ms) <-> have_unitcell s) /\
+  (forall s ms, per_frame s -> get_vectors s = Some ms -> length ms = n_frames s).
+Proof. exact (conj get_vectors_some_iff get_vectors_per_frame). Qed.
+Print Assumptions vectors_reported_iff_complete_cell_one_matrix_per_frame.
+
+
+Theorem volumes_are_triple_products_frame_by_frame :
+  (forall s vs, get_volumes s = Val (Some vs) ->
+     exists ms, get_vectors s = Some ms /\ vs = map (fun m => let '(a, b, c) := m in dot a (cross b c)) ms) /\
+  (forall s, (lengths s = None -> get_volumes s = Val None) /\
+             (lengths s <> None -> angles s = None -> get_volumes s = ErrType) /\
+             (have_unitcell s -> exists vs, get_volumes s = Val (Some vs))) /\
+  (* the computable table the runs compare the implementation with says what the getter does *)
+  (forall s (hl ha : bool), (hl = true <-> lengths s <> None) -> (ha = true <-> angles s <> None) ->
+     match get_volumes s with
+     | Val None => volumes_code hl ha = 0%nat
+     | Val (Some _) => volumes_code hl ha = 4%nat
+     | ErrType => volumes_code hl ha = 3%nat
+     | _ => False
+     end).
+Proof. exact (conj volumes_are_triple_products (conj volumes_outcomes volumes_code_spec)). Qed.
+Print Assumptions volumes_are_triple_products_frame_by_frame.
+
+
+(* ---- _check_valid_unitcell: valid cells pass; half-set cells are refused; passing does NOT imply the triangle condition *)
+Theorem check_valid_passes_valid_cells_refuses_half_set_ones :
+  (forall s cells, lengths s = Some (map fst cells) -> angles s = Some (map snd cells) ->
+     Forall (fun c => valid_cell (fst c) (snd c)) cells -> check_valid s (Val tt)) /\
+  (forall s out, (lengths s = None <-> angles s <> None) -> check_valid s out -> out = ErrAttribute) /\
+  (forall s, check_valid s (Val tt) ->
+     (lengths s = None /\ angles s = None) \/
+     (exists l a, lengths s = Some l /\ angles s = Some a /\ ~ Exists neg_vec l /\ ~ Exists neg_vec a)).
+Proof. exact (conj check_valid_passes_valid_cells (conj check_valid_half_set check_valid_ok_means)). Qed.
+Print Assumptions check_valid_passes_valid_cells_refuses_half_set_ones.
+
+
+
+Theorem check_valid_accepts_angles_no_cell_can_have :
+  check_valid (mkCell 1 (Some [(3, 4, 5)]) (Some [(100, 100, 170)])) (Val tt) /\ ~ triangle_condition 100 100 170.
+Proof. exact check_valid_accepts_impossible_angles. Qed.
+Print Assumptions check_valid_accepts_angles_no_cell_can_have.
+
+(* ---- the computable guard tables the runs compare the implementation with say what the relations say *)
+Theorem check_valid_table_is_the_relation : forall s out (hl ha nl na : bool),
+  (hl = true <-> lengths s <> None) -> (ha = true <-> angles s <> None) ->
+  (nl = true <-> exists l, lengths s = Some l /\ Exists neg_vec l) ->
+  (na = true <-> exists a, angles s = Some a /\ Exists neg_vec a) ->
+  check_valid s out -> outcome_code out = check_valid_code hl ha nl na.
+Proof. exact check_valid_code_spec. Qed.
+Print Assumptions check_valid_table_is_the_relation.
+
+
+(* ---- non-vacuity of the hypotheses of the second layer *)
+Example a_valid_cell_an_independent_description_an_orthogonal_matrix :
+  valid_cell (3, 4, 5) (70, 80, 100) /\ det3 (0, 3, 0) (4, 1, 0) (1, 1, 5) <> 0 /\ orthogonal identity_mat /\
+  3 * (gen_zero_tol * gen_zero_tol) <= 3 * 3.
+Proof. exact (conj example_valid_cell (conj example_independent (conj identity_orthogonal example_not_tiny))). Qed.
+Print Assumptions a_valid_cell_an_independent_description_an_orthogonal_matrix.
+
+
 
 (* ---- non-vacuity of the hypotheses of the real-number theorems: a cell with three different angles *)
 Example valid_cell_exists :
